@@ -916,13 +916,20 @@ class ProcessingPipeline:
             allow_external_sources=allow_external_sources,
         )
 
-    def apply(self, rule: SigmaRule | SigmaCorrelationRule) -> SigmaRule | SigmaCorrelationRule:
-        """Apply processing pipeline on Sigma rule."""
+    def apply(
+        self,
+        rule: SigmaRule | SigmaCorrelationRule,
+        state: dict[str, Any] | None = None,
+    ) -> SigmaRule | SigmaCorrelationRule:
+        """Apply processing pipeline on Sigma rule. A nested pipeline starts with the *state* of
+        the enclosing pipeline."""
         self.applied = list()
         self.applied_ids = set()
         self.field_name_applied_ids = defaultdict(set)
         self.field_mappings = FieldMappingTracking()
         self.state = dict()
+        if state is not None:
+            self.state.update(state)
         for item in self.items:
             applied = item.apply(rule)
             self.applied.append(applied)
